@@ -1,17 +1,21 @@
 #!/usr/bin/env python3
 # C06 implementation dispatcher: `P` case lines go to the E2 harness (real scheduler, virtual clock),
-# `Q` lines to the E3 harness (qrwlock state word between OS threads); the output lines are merged
+# `Q` lines to the E3 harness (qrwlock state word between OS threads), `B` lines to the E3 harness of the BLOCKING
+# qrwlock path (qrw_e3b.cpp: lock/try_lock/unlock with instrumented cv stand-ins); the output lines are merged
 # back in the order of the case file (one line per case).  If a harness dies, the case it died on
 # is reported as CRASH and the harness is restarted on the remaining cases.
 import sys, subprocess, os, tempfile
-e2_exe, e3_exe, casefile = sys.argv[1], sys.argv[2], sys.argv[3]
+if len(sys.argv) >= 5:
+    e2_exe, e3_exe, e3b_exe, casefile = sys.argv[1], sys.argv[2], sys.argv[3], sys.argv[4]
+else:
+    e2_exe, e3_exe, casefile = sys.argv[1], sys.argv[2], sys.argv[3]; e3b_exe = None
 lines = [l.rstrip('\n') for l in open(casefile) if l.strip() and not l.startswith('#')]
 groups = {}
 for i, l in enumerate(lines):
     groups.setdefault(l[0], []).append(i)
 out = [None] * len(lines)
-for tag, exe in (('P', e2_exe), ('Q', e3_exe)):
-    idx = groups.get(tag, [])
+for tag, exe in (('P', e2_exe), ('Q', e3_exe), ('B', e3b_exe)):
+    idx = groups.get(tag, []) if exe else []
     while idx:
         fd, fn = tempfile.mkstemp(prefix='C06_%s_' % tag, suffix='.cases', dir=os.path.dirname(casefile))
         with os.fdopen(fd, 'w') as f:
